@@ -69,6 +69,7 @@ let show_err = function
   | E_bad_arg o -> "bad_arg " ^ string_of_int (int_of_n o) | E_not_callable -> "not_callable"
   | E_no_function n -> "no_function " ^ hex (encode n) | E_cb n -> "cb " ^ hex (encode n)
   | E_unsupported o -> "unsupported " ^ string_of_int (int_of_n o)
+  | E_arity -> "arity"
   | E_panic o -> "panic " ^ string_of_int (int_of_n o)
 
 let () =
